@@ -4,264 +4,289 @@
 //! was made.  It never performs an out-of-range access itself: a request whose precondition does
 //! not hold is logged (that is the finding) and answered with zeros / an empty sub-reader.
 use crate::util::bytes_json;
-use rl2tp::common::{Reader, Writer};
+#[cfg(feature = "custom_readers")]
+use rl2tp::common::Reader;
+#[cfg(feature = "custom_writers")]
+use rl2tp::common::Writer;
 use serde_json::{json, Value};
+#[cfg(feature = "custom_readers")]
 use std::cell::RefCell;
+#[cfg(feature = "custom_readers")]
 use std::collections::VecDeque;
+#[cfg(feature = "custom_readers")]
 use std::rc::Rc;
-
-#[derive(Default)]
-pub struct MonLog {
-    pub calls: Vec<Value>,
-    next_id: usize,
-}
 
 /// TLC integers are 32-bit: a (wrapped) request size is logged capped at 2*10^9 -- it still
 /// exceeds any input and is rejected by the contract machine.
+#[allow(dead_code)]
 fn cap(n: usize) -> u64 {
     (n as u64).min(2_000_000_000)
 }
 
-pub struct MonReader {
-    data: Rc<Vec<u8>>,
-    pos: usize,
-    end: usize,
-    id: usize,
-    log: Rc<RefCell<MonLog>>,
-}
+// The implementations of the crate's Reader trait live behind the feature `custom_readers`, those of its Writer
+// trait behind `custom_writers` (both on by default): when a change to the crate's traits makes them stop
+// compiling, the orchestrator falls back to a build without them and says so.
+#[cfg(feature = "custom_readers")]
+mod rd {
+    use super::*;
+    #[derive(Default)]
+    pub struct MonLog {
+        pub calls: Vec<Value>,
+        next_id: usize,
+    }
 
-impl MonReader {
-    pub fn new(data: Vec<u8>) -> (Self, Rc<RefCell<MonLog>>) {
-        let log = Rc::new(RefCell::new(MonLog { calls: Vec::new(), next_id: 1 }));
-        let end = data.len();
-        (MonReader { data: Rc::new(data), pos: 0, end, id: 0, log: log.clone() }, log)
-    }
-    fn rem(&self) -> usize {
-        self.end - self.pos
-    }
-    /// take up to n octets (zero-filled when fewer remain), advance by min(n, rem)
-    fn take(&mut self, n: usize) -> Vec<u8> {
-        let k = n.min(self.rem());
-        let mut v = self.data[self.pos..self.pos + k].to_vec();
-        v.resize(n.min(64), 0);
-        self.pos += k;
-        v
-    }
-    fn fixed(&mut self, op: &str, n: usize) -> Vec<u8> {
-        let rem = self.rem();
-        let v = self.take(n);
-        self.log.borrow_mut().calls.push(json!([self.id, op, cap(n), rem, bytes_json(&v)]));
-        v
-    }
-}
 
-impl Reader<Vec<u8>> for MonReader {
-    fn is_empty(&self) -> bool {
-        self.rem() == 0
+    pub struct MonReader {
+        data: Rc<Vec<u8>>,
+        pos: usize,
+        end: usize,
+        id: usize,
+        log: Rc<RefCell<MonLog>>,
     }
-    fn len(&self) -> usize {
-        self.rem()
-    }
-    fn subreader(&mut self, length: usize) -> Self {
-        let rem = self.rem();
-        let k = length.min(rem);
-        let new_id = {
-            let mut l = self.log.borrow_mut();
-            let id = l.next_id;
-            l.next_id += 1;
-            l.calls.push(json!([self.id, "sub", cap(length), rem, id]));
-            id
-        };
-        let r = MonReader { data: self.data.clone(), pos: self.pos, end: self.pos + k, id: new_id, log: self.log.clone() };
-        self.pos += k;
-        r
-    }
-    fn bytes(&mut self, length: usize) -> Option<Vec<u8>> {
-        let rem = self.rem();
-        if length > rem {
-            self.log.borrow_mut().calls.push(json!([self.id, "bytes", cap(length), rem, 0]));
-            return None;
+
+    impl MonReader {
+        pub fn new(data: Vec<u8>) -> (Self, Rc<RefCell<MonLog>>) {
+            let log = Rc::new(RefCell::new(MonLog { calls: Vec::new(), next_id: 1 }));
+            let end = data.len();
+            (MonReader { data: Rc::new(data), pos: 0, end, id: 0, log: log.clone() }, log)
         }
-        let v = self.data[self.pos..self.pos + length].to_vec();
-        self.pos += length;
-        self.log.borrow_mut().calls.push(json!([self.id, "bytes", cap(length), rem, 1]));
-        Some(v)
-    }
-    unsafe fn read_u8_unchecked(&mut self) -> u8 {
-        self.fixed("read", 1)[0]
-    }
-    unsafe fn read_u16_be_unchecked(&mut self) -> u16 {
-        let v = self.fixed("read", 2);
-        u16::from_be_bytes([v[0], v[1]])
-    }
-    unsafe fn read_u32_be_unchecked(&mut self) -> u32 {
-        let v = self.fixed("read", 4);
-        u32::from_be_bytes([v[0], v[1], v[2], v[3]])
-    }
-    unsafe fn read_u64_be_unchecked(&mut self) -> u64 {
-        let v = self.fixed("read", 8);
-        u64::from_be_bytes([v[0], v[1], v[2], v[3], v[4], v[5], v[6], v[7]])
-    }
-    fn skip_bytes(&mut self, length: usize) {
-        let rem = self.rem();
-        let k = length.min(rem);
-        self.pos += k;
-        self.log.borrow_mut().calls.push(json!([self.id, "skip", cap(length), rem, 0]));
-    }
-}
-
-/// A structurally different conforming reader: owns a queue of octets and pops from the front.
-/// (No logging; used for the "same result for every conforming reader" comparison.)
-pub struct DequeReader {
-    q: VecDeque<u8>,
-}
-
-impl DequeReader {
-    pub fn new(data: &[u8]) -> Self {
-        DequeReader { q: data.iter().copied().collect() }
-    }
-    fn pop(&mut self) -> u8 {
-        self.q.pop_front().unwrap_or(0)
-    }
-}
-
-impl Reader<Vec<u8>> for DequeReader {
-    fn is_empty(&self) -> bool {
-        self.q.is_empty()
-    }
-    fn len(&self) -> usize {
-        self.q.len()
-    }
-    fn subreader(&mut self, length: usize) -> Self {
-        let k = length.min(self.q.len());
-        DequeReader { q: self.q.drain(..k).collect() }
-    }
-    fn bytes(&mut self, length: usize) -> Option<Vec<u8>> {
-        if length > self.q.len() {
-            return None;
+        fn rem(&self) -> usize {
+            self.end - self.pos
         }
-        Some(self.q.drain(..length).collect())
-    }
-    unsafe fn read_u8_unchecked(&mut self) -> u8 {
-        self.pop()
-    }
-    unsafe fn read_u16_be_unchecked(&mut self) -> u16 {
-        u16::from_be_bytes([self.pop(), self.pop()])
-    }
-    unsafe fn read_u32_be_unchecked(&mut self) -> u32 {
-        u32::from_be_bytes([self.pop(), self.pop(), self.pop(), self.pop()])
-    }
-    unsafe fn read_u64_be_unchecked(&mut self) -> u64 {
-        let mut b = [0u8; 8];
-        for x in b.iter_mut() {
-            *x = self.pop();
+        /// take up to n octets (zero-filled when fewer remain), advance by min(n, rem)
+        fn take(&mut self, n: usize) -> Vec<u8> {
+            let k = n.min(self.rem());
+            let mut v = self.data[self.pos..self.pos + k].to_vec();
+            v.resize(n.min(64), 0);
+            self.pos += k;
+            v
         }
-        u64::from_be_bytes(b)
-    }
-    fn skip_bytes(&mut self, length: usize) {
-        let k = length.min(self.q.len());
-        self.q.drain(..k);
-    }
-}
-
-/// Writer that logs every append and every positional overwrite (with its absolute offset).
-/// An overwrite outside the written data is logged and ignored.
-#[derive(Default)]
-pub struct MonWriter {
-    pub data: Vec<u8>,
-    pub calls: Vec<Value>,
-}
-
-impl MonWriter {
-    pub fn with_prefix(p: &[u8]) -> Self {
-        MonWriter { data: p.to_vec(), calls: Vec::new() }
-    }
-    fn app(&mut self, b: &[u8]) {
-        self.calls.push(json!(["app", self.data.len(), b.len()]));
-        self.data.extend_from_slice(b);
-    }
-}
-
-impl Writer for MonWriter {
-    fn is_empty(&self) -> bool {
-        self.data.is_empty()
-    }
-    fn len(&self) -> usize {
-        self.data.len()
-    }
-    fn write_bytes(&mut self, bytes: &[u8]) {
-        self.app(bytes)
-    }
-    fn write_bytes_at(&mut self, bytes: &[u8], offset: usize) {
-        self.calls.push(json!(["at", cap(offset), bytes.len(), self.data.len()]));
-        if offset.checked_add(bytes.len()).map_or(false, |e| e <= self.data.len()) {
-            self.data[offset..offset + bytes.len()].copy_from_slice(bytes);
+        fn fixed(&mut self, op: &str, n: usize) -> Vec<u8> {
+            let rem = self.rem();
+            let v = self.take(n);
+            self.log.borrow_mut().calls.push(json!([self.id, op, cap(n), rem, bytes_json(&v)]));
+            v
         }
     }
-    fn write_u8(&mut self, value: u8) {
-        self.app(&[value])
-    }
-    fn write_u16_be(&mut self, value: u16) {
-        self.app(&value.to_be_bytes())
-    }
-    fn write_u32_be(&mut self, value: u32) {
-        self.app(&value.to_be_bytes())
-    }
-    fn write_u64_be(&mut self, value: u64) {
-        self.app(&value.to_be_bytes())
-    }
-}
 
-/// A conforming Writer that behaves as if it already held `vbase` octets (which are not stored): positions at
-/// and beyond 2^31 / 2^32 without the memory.  Appends and positional overwrites are logged RELATIVE to
-/// `vbase` (an overwrite that starts below it is logged at -1 and not performed).
-pub struct SparseWriter {
-    pub vbase: usize,
-    pub data: Vec<u8>,
-    pub calls: Vec<Value>,
-}
-
-impl SparseWriter {
-    pub fn new(vbase: usize) -> Self {
-        SparseWriter { vbase, data: Vec::new(), calls: Vec::new() }
-    }
-    fn app(&mut self, b: &[u8]) {
-        self.calls.push(json!(["app", self.data.len(), b.len()]));
-        self.data.extend_from_slice(b);
-    }
-}
-
-impl Writer for SparseWriter {
-    fn is_empty(&self) -> bool {
-        self.vbase == 0 && self.data.is_empty()
-    }
-    fn len(&self) -> usize {
-        self.vbase + self.data.len()
-    }
-    fn write_bytes(&mut self, bytes: &[u8]) {
-        self.app(bytes)
-    }
-    fn write_bytes_at(&mut self, bytes: &[u8], offset: usize) {
-        if offset < self.vbase {
-            self.calls.push(json!(["at", -1, bytes.len(), self.data.len()]));
-            return;
+    impl Reader<Vec<u8>> for MonReader {
+        fn is_empty(&self) -> bool {
+            self.rem() == 0
         }
-        let rel = offset - self.vbase;
-        self.calls.push(json!(["at", cap(rel), bytes.len(), self.data.len()]));
-        if rel.checked_add(bytes.len()).map_or(false, |e| e <= self.data.len()) {
-            self.data[rel..rel + bytes.len()].copy_from_slice(bytes);
+        fn len(&self) -> usize {
+            self.rem()
+        }
+        fn subreader(&mut self, length: usize) -> Self {
+            let rem = self.rem();
+            let k = length.min(rem);
+            let new_id = {
+                let mut l = self.log.borrow_mut();
+                let id = l.next_id;
+                l.next_id += 1;
+                l.calls.push(json!([self.id, "sub", cap(length), rem, id]));
+                id
+            };
+            let r = MonReader { data: self.data.clone(), pos: self.pos, end: self.pos + k, id: new_id, log: self.log.clone() };
+            self.pos += k;
+            r
+        }
+        fn bytes(&mut self, length: usize) -> Option<Vec<u8>> {
+            let rem = self.rem();
+            if length > rem {
+                self.log.borrow_mut().calls.push(json!([self.id, "bytes", cap(length), rem, 0]));
+                return None;
+            }
+            let v = self.data[self.pos..self.pos + length].to_vec();
+            self.pos += length;
+            self.log.borrow_mut().calls.push(json!([self.id, "bytes", cap(length), rem, 1]));
+            Some(v)
+        }
+        unsafe fn read_u8_unchecked(&mut self) -> u8 {
+            self.fixed("read", 1)[0]
+        }
+        unsafe fn read_u16_be_unchecked(&mut self) -> u16 {
+            let v = self.fixed("read", 2);
+            u16::from_be_bytes([v[0], v[1]])
+        }
+        unsafe fn read_u32_be_unchecked(&mut self) -> u32 {
+            let v = self.fixed("read", 4);
+            u32::from_be_bytes([v[0], v[1], v[2], v[3]])
+        }
+        unsafe fn read_u64_be_unchecked(&mut self) -> u64 {
+            let v = self.fixed("read", 8);
+            u64::from_be_bytes([v[0], v[1], v[2], v[3], v[4], v[5], v[6], v[7]])
+        }
+        fn skip_bytes(&mut self, length: usize) {
+            let rem = self.rem();
+            let k = length.min(rem);
+            self.pos += k;
+            self.log.borrow_mut().calls.push(json!([self.id, "skip", cap(length), rem, 0]));
         }
     }
-    fn write_u8(&mut self, value: u8) {
-        self.app(&[value])
+
+    /// A structurally different conforming reader: owns a queue of octets and pops from the front.
+    /// (No logging; used for the "same result for every conforming reader" comparison.)
+    pub struct DequeReader {
+        q: VecDeque<u8>,
     }
-    fn write_u16_be(&mut self, value: u16) {
-        self.app(&value.to_be_bytes())
+
+    impl DequeReader {
+        pub fn new(data: &[u8]) -> Self {
+            DequeReader { q: data.iter().copied().collect() }
+        }
+        fn pop(&mut self) -> u8 {
+            self.q.pop_front().unwrap_or(0)
+        }
     }
-    fn write_u32_be(&mut self, value: u32) {
-        self.app(&value.to_be_bytes())
+
+    impl Reader<Vec<u8>> for DequeReader {
+        fn is_empty(&self) -> bool {
+            self.q.is_empty()
+        }
+        fn len(&self) -> usize {
+            self.q.len()
+        }
+        fn subreader(&mut self, length: usize) -> Self {
+            let k = length.min(self.q.len());
+            DequeReader { q: self.q.drain(..k).collect() }
+        }
+        fn bytes(&mut self, length: usize) -> Option<Vec<u8>> {
+            if length > self.q.len() {
+                return None;
+            }
+            Some(self.q.drain(..length).collect())
+        }
+        unsafe fn read_u8_unchecked(&mut self) -> u8 {
+            self.pop()
+        }
+        unsafe fn read_u16_be_unchecked(&mut self) -> u16 {
+            u16::from_be_bytes([self.pop(), self.pop()])
+        }
+        unsafe fn read_u32_be_unchecked(&mut self) -> u32 {
+            u32::from_be_bytes([self.pop(), self.pop(), self.pop(), self.pop()])
+        }
+        unsafe fn read_u64_be_unchecked(&mut self) -> u64 {
+            let mut b = [0u8; 8];
+            for x in b.iter_mut() {
+                *x = self.pop();
+            }
+            u64::from_be_bytes(b)
+        }
+        fn skip_bytes(&mut self, length: usize) {
+            let k = length.min(self.q.len());
+            self.q.drain(..k);
+        }
     }
-    fn write_u64_be(&mut self, value: u64) {
-        self.app(&value.to_be_bytes())
-    }
+
 }
+#[cfg(feature = "custom_readers")]
+pub use rd::*;
+
+#[cfg(feature = "custom_writers")]
+mod wr {
+    use super::*;
+    /// Writer that logs every append and every positional overwrite (with its absolute offset).
+    /// An overwrite outside the written data is logged and ignored.
+    #[derive(Default)]
+    pub struct MonWriter {
+        pub data: Vec<u8>,
+        pub calls: Vec<Value>,
+    }
+
+    impl MonWriter {
+        pub fn with_prefix(p: &[u8]) -> Self {
+            MonWriter { data: p.to_vec(), calls: Vec::new() }
+        }
+        fn app(&mut self, b: &[u8]) {
+            self.calls.push(json!(["app", self.data.len(), b.len()]));
+            self.data.extend_from_slice(b);
+        }
+    }
+
+    impl Writer for MonWriter {
+        fn is_empty(&self) -> bool {
+            self.data.is_empty()
+        }
+        fn len(&self) -> usize {
+            self.data.len()
+        }
+        fn write_bytes(&mut self, bytes: &[u8]) {
+            self.app(bytes)
+        }
+        fn write_bytes_at(&mut self, bytes: &[u8], offset: usize) {
+            self.calls.push(json!(["at", cap(offset), bytes.len(), self.data.len()]));
+            if offset.checked_add(bytes.len()).map_or(false, |e| e <= self.data.len()) {
+                self.data[offset..offset + bytes.len()].copy_from_slice(bytes);
+            }
+        }
+        fn write_u8(&mut self, value: u8) {
+            self.app(&[value])
+        }
+        fn write_u16_be(&mut self, value: u16) {
+            self.app(&value.to_be_bytes())
+        }
+        fn write_u32_be(&mut self, value: u32) {
+            self.app(&value.to_be_bytes())
+        }
+        fn write_u64_be(&mut self, value: u64) {
+            self.app(&value.to_be_bytes())
+        }
+    }
+
+    /// A conforming Writer that behaves as if it already held `vbase` octets (which are not stored): positions at
+    /// and beyond 2^31 / 2^32 without the memory.  Appends and positional overwrites are logged RELATIVE to
+    /// `vbase` (an overwrite that starts below it is logged at -1 and not performed).
+    pub struct SparseWriter {
+        pub vbase: usize,
+        pub data: Vec<u8>,
+        pub calls: Vec<Value>,
+    }
+
+    impl SparseWriter {
+        pub fn new(vbase: usize) -> Self {
+            SparseWriter { vbase, data: Vec::new(), calls: Vec::new() }
+        }
+        fn app(&mut self, b: &[u8]) {
+            self.calls.push(json!(["app", self.data.len(), b.len()]));
+            self.data.extend_from_slice(b);
+        }
+    }
+
+    impl Writer for SparseWriter {
+        fn is_empty(&self) -> bool {
+            self.vbase == 0 && self.data.is_empty()
+        }
+        fn len(&self) -> usize {
+            self.vbase + self.data.len()
+        }
+        fn write_bytes(&mut self, bytes: &[u8]) {
+            self.app(bytes)
+        }
+        fn write_bytes_at(&mut self, bytes: &[u8], offset: usize) {
+            if offset < self.vbase {
+                self.calls.push(json!(["at", -1, bytes.len(), self.data.len()]));
+                return;
+            }
+            let rel = offset - self.vbase;
+            self.calls.push(json!(["at", cap(rel), bytes.len(), self.data.len()]));
+            if rel.checked_add(bytes.len()).map_or(false, |e| e <= self.data.len()) {
+                self.data[rel..rel + bytes.len()].copy_from_slice(bytes);
+            }
+        }
+        fn write_u8(&mut self, value: u8) {
+            self.app(&[value])
+        }
+        fn write_u16_be(&mut self, value: u16) {
+            self.app(&value.to_be_bytes())
+        }
+        fn write_u32_be(&mut self, value: u32) {
+            self.app(&value.to_be_bytes())
+        }
+        fn write_u64_be(&mut self, value: u64) {
+            self.app(&value.to_be_bytes())
+        }
+    }
+
+}
+#[cfg(feature = "custom_writers")]
+pub use wr::*;
